@@ -9,7 +9,7 @@ import numpy as np
 
 PROPERTY = "C04"
 CLAIM = dict(
-    text="Every call site of an alphabet of 31 date-consuming public operations (SGP4 wrapper and native SGP4, Kepler, "
+    text="Every call site of an alphabet of 33 date-consuming public operations (SGP4 wrapper and native SGP4, Kepler, "
     "J2, numerical Kepler with maneuvers, Clohessy-Wiltshire with a maneuver, analytical Sun/Moon, JPL ephemeris, frame "
     "changes through both IAU chains, ephemeris interpolation and re-sampling, node events, station visibility events, "
     "TLE writer, OPM/OEM/OMM writers and readers in KVN and XML) is executed for the full product of the 6 labels of "
@@ -32,7 +32,7 @@ RULE = (
     "instant (itself computed right after an unrelated call); non-trivial = at least one label differs from UTC; distinct by that tuple"
 )
 BOUNDS = {
-    "quick": "31 call sites x 4 instants x [6x6 labels (x 6 maneuver labels where present) + all 30 ordered label pairs of two "
+    "quick": "33 call sites x 4 instants x [6x6 labels (x 6 maneuver labels where present) + all 30 ordered label pairs of two "
     "consecutive calls at the same instant + all 30 ordered pairs with the same clock fields under two labels (pairs with UTC "
     "only for station visibility)] with the real IERS tables, + the 6x6 label product of every call site again without any "
     "IERS file (zero corrections), all of it",
@@ -123,11 +123,12 @@ def dates_for(inst, Le, La, Lm):
     Au = Eu + timedelta(seconds=DT)
     M1u = Eu + timedelta(seconds=613.5)  # off the 60 s grid of the numerical propagator: a maneuver exactly on a
     M2u = Eu + timedelta(seconds=1517.25)  # step boundary would move by a whole step for a 1 us residual
-    E, A, M1, M2 = label(Eu, Le), label(Au, La), label(M1u, Lm), label(M2u, Lm)
-    res = [abs(stored_diff(x, u)) for x, u in ((E, Eu), (A, Au), (M1, M1u), (M2, M2u))]
+    A30u = Eu + timedelta(days=30, seconds=DT)  # a long span: non-uniform labels (TDB, UT1) on both ends
+    E, A, M1, M2, A30 = label(Eu, Le), label(Au, La), label(M1u, Lm), label(M2u, Lm), label(A30u, La)
+    res = [abs(stored_diff(x, u)) for x, u in ((E, Eu), (A, Au), (M1, M1u), (M2, M2u), (A30, A30u))]
     if max(res) > 2e-6:
         return None
-    return dict(E=E, A=A, M1=M1, M2=M2, Eu=Eu, Au=Au, res=res[0] + res[1] + max(res[2:]))
+    return dict(E=E, A=A, M1=M1, M2=M2, A30=A30, Eu=Eu, Au=Au, res=res[0] + max(res[1], res[4]) + max(res[2:4]))
 
 
 def dates_fields(inst, L):
@@ -140,7 +141,7 @@ def dates_fields(inst, L):
         return base
     out = {}
     res = []
-    for k, ku in (("E", "Eu"), ("A", "Au"), ("M1", None), ("M2", None)):
+    for k, ku in (("E", "Eu"), ("A", "Au"), ("M1", None), ("M2", None), ("A30", None)):
         x = Date(base[k].datetime, scale=L)
         u = x.change_scale("UTC")
         res.append(abs(stored_diff(u, x)))
@@ -149,13 +150,13 @@ def dates_fields(inst, L):
     if max(res) > 2e-6:
         return None
     out["Eu"], out["Au"] = out["Eu_"], out["Au_"]
-    out["res"] = res[0] + res[1] + max(res[2:])
+    out["res"] = res[0] + max(res[1], res[4]) + max(res[2:4])
     return out
 
 
 def dates_utc_of(d):
     """the all-UTC dates of the instants of a 'same fields' set"""
-    return dict(E=d["Eu_"], A=d["Au_"], M1=d["M1u_"], M2=d["M2u_"], Eu=d["Eu_"], Au=d["Au_"], res=0.0)
+    return dict(E=d["Eu_"], A=d["Au_"], M1=d["M1u_"], M2=d["M2u_"], A30=d["A30u_"], Eu=d["Eu_"], Au=d["Au_"], res=0.0)
 
 
 # ---------------------------------------------------------------------------
@@ -238,6 +239,16 @@ def op_kepler(d):
 
 def op_j2(d):
     r = kep_orbit(d["E"], "J2").propagate(d["A"])
+    return {"state": ("state", sv6(r), "inertial", r.date), "date": ("date", r.date)}
+
+
+def op_kepler_30d(d):
+    r = kep_orbit(d["E"]).propagate(d["A30"])
+    return {"state": ("state", sv6(r), "inertial", r.date), "date": ("date", r.date)}
+
+
+def op_j2_30d(d):
+    r = kep_orbit(d["E"], "J2").propagate(d["A30"])
     return {"state": ("state", sv6(r), "inertial", r.date), "date": ("date", r.date)}
 
 
@@ -545,6 +556,8 @@ OPS = {
     "sgp4beta_td": (op_sgp4beta_td, "E", "Sgp4Beta.propagate(timedelta)", A_),
     "kepler": (op_kepler, "EA", "Kepler.propagate", frozenset()),
     "j2": (op_j2, "EA", "J2.propagate", frozenset()),
+    "kepler_30d": (op_kepler_30d, "EA", "Kepler.propagate/30-days", frozenset()),
+    "j2_30d": (op_j2_30d, "EA", "J2.propagate/30-days", frozenset()),
     "keplernum": (op_keplernum, "EAM", "KeplerNum.propagate", A_),
     "cw": (op_cw, "EAM", "ClohessyWiltshire.propagate", A_),
     "sun": (op_sun, "A", "SunPropagator.propagate", E_ | A_),
